@@ -104,7 +104,7 @@ func From(input any) (Any, error) {
 		}
 		return Integer(v.Value), nil
 	case *dtpb.Decimal:
-		value, err := decimal.NewFromString(v.Value)
+		value, err := parseDecimal(v.Value)
 		if err != nil {
 			return nil, err
 		}
@@ -134,7 +134,7 @@ func From(input any) (Any, error) {
 			// the value is optional in FHIR; without it there is no System Quantity
 			return nil, fmt.Errorf("%w: Quantity without a value", ErrCantBeCast)
 		}
-		value, err := decimal.NewFromString(v.Value.Value)
+		value, err := parseDecimal(v.Value.Value)
 		if err != nil {
 			return nil, err
 		}
